@@ -17,6 +17,9 @@ CLAIMED = {
     'C18': dict(cat='proof', technique='Coq proofs (csleep cycle/frame theorem on the 6502 cycle model; optimiser keeps protected instructions and inline assembly) + exhaustive csleep-table correspondence + trace co-execution against the extracted C semantics',
                 text='csleep(n) is proved to take exactly n cycles and to change nothing but DUMMY and the free stack byte for every state, on a table compared exhaustively with the generator each run; the optimiser is proved never to remove, duplicate or reorder protected instructions and inline lines; executed event traces at every level are compared with the trace the C semantics prescribes, and deleting csleep statements must not change final states.',
                 ref='DESIGN.md section 6 C18'),
+    'C04': dict(cat='proof', technique='Coq proof over the whole finite domain of a Gallina model of asm() (size = encoding the assembler selects) + exhaustive per-run correspondence of that model with the real asm() through the verification hook + re-assembly of compiled functions by the extracted encoder',
+                text='For every (mnemonic, operand kind, variable type/memory class/constness, byte selection, scheme) the model of asm() is proved to report the size of the encoding a 6502 assembler selects; the model is compared with the real asm() on all ~80 000 cells every run (exhaustive); optimiser and branch repair are proved to only delete such instructions or add instructions of known real size; and every function of seeded programs is re-assembled by the extracted encoder and compared with size_bytes().',
+                ref='DESIGN.md section 6 C04'),
 }
 
 NOT_YET = {}
